@@ -214,7 +214,7 @@ pub fn run(ctx: &Ctx) -> i32 {
             Some(build(&R13 { shapes, tracked: vec![true, false, true], masks: vec![m(pat % 8, 0), m(pat / 8, 1)], lri: 0 }, None))
         },
     ));
-    let (total, max_params, max_rounds) = t.pick((6000u64, 7usize, 4usize), (150000, 9, 6));
+    let (total, max_params, max_rounds) = t.pick((40000u64, 7usize, 4usize), (1000000, 9, 6));
     let strat = move || {
         (
             prop::collection::vec(prop::collection::vec(1..=5usize, 1..=3), 0..=max_params),
